@@ -1,7 +1,8 @@
 """C04 — Sources override each other in the documented order, left to right.
 
 Pipeline
- (1) build Props/C04 (the model pipeline of Core/Sources.lean equals the reference fold, key by key);
+ (1) regenerate Gen/SourcesOrder (shape of the pipeline read off the AST) and build Props/C04 (the model
+     pipeline of Core/Sources.lean equals the reference fold, key by key; the shape pin);
  (2) correspondence: ONE JSON parser spec builds the real ArgumentParser and the model parser; every
      subset of sources (0-4 default config files through three patterns, one of them a glob matching
      two files; env config variable; env variables; 0-6 command line items: `--k=v`, `--k v`,
@@ -28,14 +29,18 @@ MANIFEST = {
     "engine": "Sources",
     "technique": "Lean 4 proof that a model of the parser's precedence pipeline (get_defaults, _load_env_vars, merge_config = update + apply_appends, "
                  "argv fold with --cfg at its position) equals a ten-line reference fold of assignments, key by key; differential correspondence of "
-                 "the model with the real ArgumentParser over generated parsers and every subset of sources; independent Python reference fold as oracle",
+                 "the model with the real ArgumentParser over generated parsers and every subset of sources; regenerated table of the merge calls / loop "
+                 "order the model transcribes (Gen/SourcesOrder, pinned by a theorem); independent Python reference fold as oracle",
     "text": "Theorems in lean/Jap/Props/C04.lean prove, for every parser of the model (leaf arguments with flat or dotted destinations that are pairwise "
             "divergent, scalar / list / dict typed, one config argument), every list of default config files, environment and command line of any length, "
             "that the value the model pipeline leaves at every argument equals the left fold of the flattened sources in the documented order "
             "(defaults, default config files, env config, env variables, command line with configs at their position), with replace / append / "
             "dict-item semantics, under the one guard the code needs (no 'key+' entry in the config given through the environment variable: open "
-            "finding, refutation witness proved).  The model is tied to the code by running both on the same generated parser specs and sources and "
-            "comparing every key; the property itself is evaluated on the real code against an independent reference fold.",
+            "finding, refutation witness proved; C04_order_exact states what the code does without the guard).  The model is tied to the code by "
+            "regenerating, from the AST of /repo, the argument order of every merge_config call, the body of merge_config, the loops of "
+            "_load_env_vars, the ordering of default config files, apply_appends, Namespace.update and get_env_var into Gen/SourcesOrder "
+            "(C04_transcription_pin) and by running model and real parser on the same generated parser specs and sources and comparing every "
+            "key; the property itself is evaluated on the real code against an independent reference fold.",
     "level_note": "Trusted: Lean kernel; axioms propext/Quot.sound/Classical.choice only; the correspondence harness and its generators; the C11 refinement "
                   "(setK/getK are __setitem__/__getitem__ when no dict value is on the key path). Outside: argparse tokenisation, glob/expanduser, the "
                   "loaders, type adaptation (values are generated in normal form), subcommands, groups, links, positionals.",
@@ -673,17 +678,19 @@ def compare_model(real, mod):
     return "keys %s: real %s, model %s" % (bad, [got.get(k) for k in bad], [want.get(k) for k in bad])
 
 
-def correspond(ctx: Ctx, bench, pairs, reals=None):
-    """pairs: [(spec, case)]; returns [(index, description)] of disagreements"""
+def correspond(ctx: Ctx, bench, pairs, reals=None, outputs=None):
+    """pairs: [(spec, case)]; returns [(index, description)] of disagreements; driver outputs are appended to `outputs`"""
     if not pairs:
         return []
     try:
-        model = ctx.driver("Sources", [model_line(s, c) for s, c in pairs])
+        model = ctx.driver("Sources", [model_line(s, c) for s, c in pairs], timeout=1800)
     except MachineryError as ex:
         if ctx.lean_ok:
             raise
         ctx.tie_break("correspondence Sources not runnable (model does not build)", str(ex))
         return []
+    if outputs is not None:
+        outputs.extend(model)
     bad = []
     for i, ((spec, case), mod) in enumerate(zip(pairs, model)):
         real = reals[i] if reals is not None else bench.run(spec, case)
@@ -691,6 +698,55 @@ def correspond(ctx: Ctx, bench, pairs, reals=None):
         if d is not None:
             bad.append((i, d))
     return bad
+
+
+# ---------------------------------------------------------------- exhaustive small scope
+EXH_SPEC = {
+    "args": [
+        {"dest": "n", "type": "int", "default": 1},
+        {"dest": "g.l", "type": "list", "default": [0]},
+        {"dest": "cfg", "type": "config"},
+        {"dest": "d", "type": "dict", "default": {"z": 0}},
+    ],
+    "env_prefix": "APP", "default_env": True, "os_default_env": None,
+}
+EXH_FILES = {"z.json": {"n": 2, "g": {"l+": [2]}}, "m1.json": {"g": {"l": [3]}, "d": {"a": 3}}, "m2.json": {"n": 4, "g.l+": 4}, "a.json": {"d": {"b": 5}, "g": {"l+": [5]}}}
+EXH_ENV_CFG = {"tree": {"n": 6, "d": {"c": 6}}, "via": "string"}
+EXH_ENV_VARS = {"n": 7, "g.l": [7]}
+EXH_ITEMS = [
+    {"t": "set", "k": "n", "v": 8, "form": "eq"},
+    {"t": "set", "k": "g.l", "v": [8], "form": "sp"},
+    {"t": "append", "k": "g.l", "v": 9, "form": "eq"},
+    {"t": "append", "k": "g.l", "v": [10, 11], "form": "sp"},
+    {"t": "item", "k": "d", "i": "a", "v": 12, "form": "eq"},
+    {"t": "set", "k": "d", "v": {"e": 13}, "form": "eq"},
+    {"t": "cfg", "k": "cfg", "tree": {"n": 14, "g": {"l+": [14]}}, "via": "string", "form": "eq"},
+    {"t": "cfg", "k": "cfg", "tree": {"g.l": [15], "d": {"f": 15}}, "via": "file", "form": "sp"},
+]
+
+
+def exhaustive_cases(masks, max_len):
+    out = []
+    for mask in masks:
+        base = {"files": {name: EXH_FILES[name] for bit, name in enumerate(DCF_ORDER) if mask >> bit & 1}, "env_vars": {}}
+        if mask >> 4 & 1:
+            base["env_cfg"] = EXH_ENV_CFG
+        if mask >> 5 & 1:
+            base["env_vars"] = EXH_ENV_VARS
+        for n in range(max_len + 1):
+            for combo in itertools.product(EXH_ITEMS, repeat=n):
+                c = copy.deepcopy(base)
+                c["method"] = "args"
+                c["argv"] = [dict(it) for it in combo]
+                out.append((EXH_SPEC, c))
+        for m, tree in (("env", None), ("string", {"n": 16, "g": {"l+": [16]}, "d": {"g": 16}}), ("object", {"g.l": [17]})):
+            c = copy.deepcopy(base)
+            c["method"] = m
+            c["argv"] = []
+            if tree is not None:
+                c["tree"] = tree
+            out.append((EXH_SPEC, c))
+    return out
 
 
 CORPUS_SPEC_Q = {
@@ -720,7 +776,7 @@ def run(ctx: Ctx):
         "argparse tokenisation, glob and expanduser are outside the model: the ordered list of existing default config files is an input fact "
         "computed by the harness from the documented rule (patterns as listed, matches of one pattern sorted)",
     ]
-    ctx.lean_build(extractors=[])
+    ctx.lean_build(extractors=["sources_order"])
     bench = Bench()
 
     from ..lib import corpus as corpus_mod
@@ -730,7 +786,7 @@ def run(ctx: Ctx):
 
     # --- generated: every subset of sources, for every method, per parser --------------------------
     n_specs = ctx.budget(13, 61) * (2 if ctx.search_boost > 1 else 1)
-    per_spec = ctx.budget(160, 450) * (2 if ctx.search_boost > 1 else 1)
+    per_spec = ctx.budget(260, 450) * (2 if ctx.search_boost > 1 else 1)
     methods = ["args", "args", "args", "args", "env", "env_dict", "string", "path", "object", "args"]
     specs = [CORPUS_SPEC_Q] + [gen_spec(ctx.rng, i) for i in range(n_specs - 1)]
     for spec in specs:
@@ -742,6 +798,15 @@ def run(ctx: Ctx):
             n_argv = ctx.rng.randint(0, 6)
             bad = ctx.rng.random() < 0.04
             pairs.append((spec, gen_case(ctx.rng, spec, mask, method, n_argv, bad=bad)))
+
+    # --- exhaustive small scope: every subset of the six sources x every item sequence up to a length ---
+    if ctx.thorough:
+        exh = exhaustive_cases(range(64), 2) + exhaustive_cases([0, 21, 42, 63, 48, 15, 37, 26], 3)
+    else:
+        exh = exhaustive_cases(range(64), 1) + exhaustive_cases([0, 63, 21, 42], 2)
+    ctx.extra["exhaustive_small_scope"] = {"cases": len(exh), "sources": "all 64 subsets of {z, m1, m2, a, env config, env variables}",
+                                           "item_alphabet": len(EXH_ITEMS), "max_items": 3 if ctx.thorough else 2}
+    pairs += exh
 
     # --- run the real implementation once per case, snapshot immediately ----------------------------
     reals = []
@@ -763,7 +828,27 @@ def run(ctx: Ctx):
         ctx.sample({"spec": spec, "case": case})
 
     # --- correspondence -------------------------------------------------------------------------
-    bad = correspond(ctx, bench, pairs, reals)
+    outputs = []
+    bad = correspond(ctx, bench, pairs, reals, outputs)
+    # the theorems apply to the cases that satisfy their hypotheses: count them, and evaluate C04_order on them in Lean
+    in_domain = guarded = 0
+    for (spec, case), mod in zip(pairs, outputs):
+        if not mod.get("domain"):
+            continue
+        in_domain += 1
+        if not mod.get("guard"):
+            continue
+        guarded += 1
+        cd = cfg_dest(spec)
+        m, r = flat_wire(mod["model"]), flat_wire(mod["ref"])
+        if any(m.get(k) != r.get(k) for k in set(m) | set(r) if k != cd):
+            ctx.tie_break("Lean evaluation of the model differs from refFold inside the domain of C04_order_partial",
+                          json.dumps({"spec": spec, "case": case}, ensure_ascii=True)[:1500])
+            break
+    ctx.extra["cases_in_theorem_domain"] = in_domain
+    ctx.extra["cases_in_domain_and_guard"] = guarded
+    ctx.extra["well_formed_but_outside_domain"] = sum(
+        1 for (sp, c), mod in zip(pairs, outputs) if well_formed(sp, c) and not mod.get("domain"))
     for i, desc in bad[:3]:
         spec, case = pairs[i]
 
